@@ -377,7 +377,7 @@ theorem cwd_big (v : List Byte) : ProtoBig (cwd v) v (stripSlash v) := by
   · intro size h
     have h0 : ¬ size = 0 := by omega
     have h1 : v.length + 1 ≤ size := by omega
-    simp only [cwd, cwdR, h0, h1, if_true, if_false, stripSlash]
+    simp only [cwd, cwdR, h0, h1, if_true, if_false, stripSlash, List.nil_append]
     by_cases hs : v.length > 1 ∧ v[v.length - 1]? = some slash
     · simp only [hs, and_self, decide_true, if_true]
       have hl : (v.take (v.length - 1)).length = v.length - 1 := by simp
@@ -636,21 +636,35 @@ theorem cwdR_answer (v : List Byte) (size : Nat) (residue : Writes) :
   by_cases h0 : size = 0
   · simp [h0]
   · by_cases h1 : v.length + 1 ≤ size
-    · simp [h0, h1]
+    · simp only [h0, h1, if_true, if_false]
+      split <;> simp
+    · by_cases h2 : v.length + 1 ≤ scratchCap <;> simp [h0, h1, h2]
+
+theorem holds_after (a b : Writes) (s : List Byte) (h : HoldsString b s) : HoldsString (a ++ b) s := by
+  constructor
+  · intro i hi
+    rw [get_append, h.1 i hi, List.getElem?_eq_getElem hi]; rfl
+  · rw [get_append, h.2]; rfl
+
+/-- with a residue `r` of glibc's getcwd: the writes are `r` followed by those of the plain run when the call succeeds -/
+theorem cwdR_writes (v : List Byte) (size : Nat) (residue : Writes) (hpos : 0 < size) :
+    (cwdR v size residue).writes = residue ++ (cwd v size).writes := by
+  unfold cwd cwdR
+  by_cases h0 : size = 0
+  · omega
+  · by_cases h1 : v.length + 1 ≤ size
+    · simp only [h0, h1, if_true, if_false]
+      split <;> simp [List.append_assoc]
     · by_cases h2 : v.length + 1 ≤ scratchCap <;> simp [h0, h1, h2]
 
 theorem cwdR_bounded (v : List Byte) (size : Nat) (residue : Writes) (h : Bounded residue size) :
     Bounded (cwdR v size residue).writes size := by
-  by_cases hs : v.length + 1 ≤ size
-  · have e : cwdR v size residue = cwd v size := by
-      have h0 : ¬ size = 0 := by omega
-      simp [cwd, cwdR, h0, hs]
-    rw [e]
-    exact ((cwd_big v).ok size (by omega)).2.2.2.mono (by omega)
-  · unfold cwdR
-    by_cases h0 : size = 0
-    · simp only [h0, if_true]; exact bounded_nil _
-    · simp only [h0, hs, if_false]
-      split <;> exact h
+  by_cases h0 : size = 0
+  · simp only [cwdR, h0, if_true]; exact bounded_nil _
+  rw [cwdR_writes v size residue (by omega), bounded_append]
+  refine ⟨h, ?_⟩
+  by_cases hs : size ≤ v.length
+  · rw [((cwd_big v).fail size hs).2]; exact bounded_nil _
+  · exact ((cwd_big v).ok size (by omega)).2.2.2.mono (by omega)
 
 end UvModel.Getter
